@@ -52,7 +52,7 @@ func (p *propC02) Prepare(seed uint64, tier string) int {
 	}
 	p.count = 1200000
 	if isThorough(tier) {
-		p.count = 25000000
+		p.count = 10000000
 	}
 	return p.count
 }
